@@ -54,3 +54,14 @@ def decode_step(tokens, n, ncons):
     nx = v[2 * n + ncons + 2:3 * n + ncons + 2]
     dens = v[3 * n + ncons + 2:4 * n + ncons + 2]
     return mu, rs, rc, r, stop, nx, dens
+
+
+class Snapshot:
+    """what the trace correspondence needs, frozen right after a solve (later calls on the mixture overwrite the trace)"""
+
+    def __init__(self, m):
+        self.T, self.P, self.species, self.x0 = m.T, m.P, m.species, tuple(m.x0)
+        self.gfe_initial_particles, self.gfe_rtol, self.gfe_max_iter = m.gfe_initial_particles, m.gfe_rtol, m.gfe_max_iter
+        self._verif_trace = list(getattr(m, "_verif_trace", []))
+        self._verif_success = getattr(m, "_verif_success", None)
+        self._LTE__Ni = np.array(getattr(m, "_LTE__Ni"))
